@@ -167,18 +167,16 @@ Qed.
 (* ---------- the best is never stopped early ---------- *)
 Theorem best_never_stopped p s j jb b z t : wf p -> scheduled p -> reach p s -> nth_error s j = Some jb ->
   ok_op s (Stp j) = true -> obs jb = (b, Num z) :: t -> b < max_steps p ->
-  (forall ob z', In ob (map obs s) -> In (b, Num z') ob -> z' <= z) ->
+  (forall c, In c (hist_comp p (map obs s) b) -> c <= z) ->
   (kind p = KAsha -> min_comp p <= Z.of_nat (length (hist_comp p (map obs s) b))) ->
   snd (step p s (Stp j)) = Some false.
 Proof.
-  intros Hwf Hsc Hr Ej Hok Ho Hb Hbest Hmc.
+  intros Hwf Hsc Hr Ej Hok Ho Hb Hall Hmc.
   assert (Hk : kind p <> KMedianOld) by (destruct Hsc as [E|E]; rewrite E; discriminate).
   rewrite (reference_agree p s j jb Hwf Hk Hr Ej Hok).
   destruct (pending_shape p s j jb Hwf Hr Ej Hok) as (b' & v' & t' & Ho' & _ & _ & HS).
   rewrite Ho in Ho'. injection Ho' as <- <- <-. destruct (HS Hsc) as (_ & _ & Hft).
   assert (Hown : In ((b, Num z) :: t) (map obs s)). { rewrite <- Ho. apply in_map. eapply nth_error_In; eauto. }
-  assert (Hall : forall c, In c (hist_comp p (map obs s) b) -> c <= z).
-  { intros c Hc. apply hist_comp_In in Hc as (ob & Hob & Hin). eapply Hbest; eauto. }
   unfold ref_stop. rewrite Ho. apply Z.leb_gt in Hb. rewrite Hb.
   destruct Hsc as [Ek|Ek]; rewrite Ek.
   - destruct (negb (is_decision p b)); [reflexivity|].
@@ -212,4 +210,15 @@ Proof.
   fold comp in Hout. destruct (Z.of_nat (length comp) <? min_comp p) eqn:E.
   - left. apply Z.ltb_lt. exact E.
   - right. injection Hout as Hout. apply Nat.leb_le. exact Hout.
+Qed.
+
+(* the same with the plainer hypothesis: at least as good as every number recorded at that budget by anybody *)
+Corollary best_never_stopped_all p s j jb b z t : wf p -> scheduled p -> reach p s -> nth_error s j = Some jb ->
+  ok_op s (Stp j) = true -> obs jb = (b, Num z) :: t -> b < max_steps p ->
+  (forall ob z', In ob (map obs s) -> In (b, Num z') ob -> z' <= z) ->
+  (kind p = KAsha -> min_comp p <= Z.of_nat (length (hist_comp p (map obs s) b))) ->
+  snd (step p s (Stp j)) = Some false.
+Proof.
+  intros Hwf Hsc Hr Ej Hok Ho Hb Hbest Hmc. eapply best_never_stopped; eauto.
+  intros c Hc. apply hist_comp_In in Hc as (ob & Hob & Hin). eapply Hbest; eauto.
 Qed.
